@@ -5,6 +5,35 @@ import c01
 KINDS = ("wrong-value", "spurious-panic", "missed-panic", "wrong-panic", "eval-crash", "config-failed", "other")
 
 
+# every clause of the property as a small program, always run (the generator's random programs come on top)
+SCENARIOS = [
+    ("copy-array", "pub fn main(a: [u8; 3], v: u8) -> ([u8; 3], [u8; 3]) { let mut b = a; b[1] = v; let mut c = b; c[2] = v + 1u8; (a, b) }"),
+    ("copy-struct", "struct P { x: u8, y: (u8, bool) }\npub fn main(p: P, v: u8) -> (u8, u8, u8) { let mut q = p; q.y.0 = v; let r = q; q.x = v; (p.y.0, q.y.0, r.x) }"),
+    ("copy-into-tuple", "pub fn main(a: u8, v: u8) -> (u8, (u8, u8)) { let mut x = a; let t = (x, x); x = v; (x, t) }"),
+    ("callee-param-collides", "fn double(x: u8) -> u8 { x + x }\npub fn main(a: u8, b: u8) -> u8 { let x = a; let y = double(b); x ^ y }"),
+    ("callee-param-collides-main-param", "fn f(b: u8, a: u8) -> u8 { a ^ (b & 15u8) }\npub fn main(a: u8, b: u8) -> (u8, u8, u8) { let r = f(a, b); (a, b, r) }"),
+    ("callee-mutation-invisible", "fn inc(mut n: u8) -> u8 { n = n ^ 1u8; n }\npub fn main(a: u8, b: u8) -> (u8, u8) { let mut n = a; n = n ^ 2u8; let m = inc(b); (n, m) }"),
+    ("callee-local-collides", "fn g(v: u8) -> u8 { let t = v ^ 3u8; let mut u = t; u = u & 7u8; u }\npub fn main(a: u8, b: u8) -> (u8, u8, u8) { let t = a; let mut u = b; let r = g(a ^ b); u = u ^ 1u8; (t, u, r) }"),
+    ("callee-array-by-value", "fn z(mut arr: [u8; 2]) -> u8 { arr[0] = 0u8; arr[1] }\npub fn main(arr: [u8; 2]) -> (u8, [u8; 2]) { let r = z(arr); (r, arr) }"),
+    ("call-in-branch", "fn h(mut x: u8) -> u8 { x = x | 1u8; x }\npub fn main(c: bool, a: u8) -> (u8, u8) { let mut x = a; let y = if c { h(x & 6u8) } else { x = x ^ 8u8; h(3u8) }; (x, y) }"),
+    ("if-merge", "pub fn main(c: bool, a: u8, b: u8) -> (u8, u8) { let mut x = a; let mut y = b; if c { x = b; } else { y = a; } (x, y) }"),
+    ("if-merge-nested-shadow", "pub fn main(c: bool, d: bool, a: u8) -> (u8, u8) { let mut x = a; let y = 7u8; if c { let y = 9u8; if d { x = y; } } else { let x = y; } (x, y) }"),
+    ("if-no-else", "pub fn main(c: bool, a: [u8; 2]) -> [u8; 2] { let mut r = a; if c { r[0] = r[1]; r[1] = 0u8; } r }"),
+    ("match-merge", "enum E { A, B(u8), C(u8, u8) }\npub fn main(e: E, a: u8) -> (u8, u8) { let mut x = a; let mut y = 0u8; match e { E::A => { x = 1u8; } E::B(v) => { y = v; } E::C(v, w) => { x = v; y = w; } } (x, y) }"),
+    ("match-arm-binding-shadows", "pub fn main(t: (bool, u8), x: u8) -> (u8, u8) { let r = match t { (true, x) => x ^ 1u8, (false, y) => x ^ y }; (r, x) }"),
+    ("loop-carried", "pub fn main(a: [u8; 4]) -> (u8, u8) { let mut acc = 0u8; let mut last = 0u8; for e in a { acc = acc ^ e; last = e; } (acc, last) }"),
+    ("loop-shadow-per-iteration", "pub fn main(a: [u8; 3], s: u8) -> (u8, u8) { let mut acc = s; let k = 1u8; for e in a { let k = k ^ e; acc = acc ^ k; } (acc, k) }"),
+    ("loop-index-mutation", "pub fn main(a: [u8; 3], i: usize) -> [u8; 3] { let mut r = a; for j in 0usize..2usize { if j == i { r[j] = r[j + 1usize]; } } r }"),
+    ("dynamic-index-write", "pub fn main(a: [(u8, bool); 3], i: usize, v: u8) -> ([(u8, bool); 3], u8) { let mut r = a; r[i].0 = v; (r, a[0].0 ^ a[1].0 ^ a[2].0) }"),
+    ("block-scope-ends", "pub fn main(a: u8, b: u8) -> (u8, u8) { let x = a; let mut y = b; { let x = b; y = x ^ 1u8; { let y = a; } } (x, y) }"),
+    ("short-circuit-no-effect", "fn side(mut q: u8) -> bool { q = q ^ 255u8; q > 9u8 }\npub fn main(c: bool, q: u8) -> (bool, u8) { let r = c && side(q); (r, q) }"),
+]
+
+
+def scenario_sources(ck):
+    return list(SCENARIOS)
+
+
 def run(ck):
     return c01.run_prog_property(
         ck, "C14", "C14", KINDS, 300, 8000, ["mutation"],
@@ -12,4 +41,5 @@ def run(ck):
         "Mutation-heavy programs (let mut, op-assignment through nested array/tuple/struct accessors with constant "
         "and input-dependent indices, shadowing, mutation inside nested blocks, branches, arms, loops and callees) "
         "against the by-value interpreter Lang/Sem.v, whose environment lemmas (Props/C14.v) state the frame "
-        "properties: assignment changes exactly the innermost declaring binding; a scope's bindings end with it.")
+        "properties: assignment changes exactly the innermost declaring binding; a scope's bindings end with it.",
+        extra_sources=scenario_sources)
